@@ -203,3 +203,30 @@ pub fn offset_text(ofs_secs: i64, colon: bool) -> String {
 pub fn line_of(src: &str, p: usize) -> usize {
     src.as_bytes()[..p].iter().filter(|b| **b == b'\n').count() + 1
 }
+
+
+// ---- the implementation's own removal markers (what clean deletes before tidying) -------------------------
+
+/// (range, pair index) markers computed by chiritori itself for `src` under `cfg`; Err on panic.
+pub fn impl_markers(src: &str, cfg: &Cfg) -> Result<Vec<(std::ops::Range<usize>, Option<usize>)>, String> {
+    use chiritori::code::remover::marker::availability::{range_marker_availability::RangeMarkerAvailability, unwrap_block_marker_availability::UnwrapBlockMarkerAvailability};
+    use chiritori::code::remover::marker::builder::{range_marker_builder::RangeMarkerBuilder, unwrap_block_marker_builder::UnwrapBlockMarkerBuilder};
+    use chiritori::code::remover::marker::factory::RemoveStrategies;
+    use chiritori::code::remover::removal_evaluator::{marker_evaluator::MarkerEvaluator, time_limited_evaluator::TimeLimitedEvaluator, RemovalEvaluator};
+    use chiritori::code::remover::Remover;
+    use std::collections::HashMap;
+    guarded(|| {
+        let content = Rc::new(src.to_string());
+        let tokens = chiritori::tokenizer::tokenize(&content, &cfg.ds, &cfg.de);
+        let parsed = chiritori::parser::parse(&tokens);
+        let mut ev: HashMap<String, Box<dyn RemovalEvaluator>> = HashMap::new();
+        ev.insert(cfg.tl_tag.clone(), Box::new(TimeLimitedEvaluator { current_time: Local.timestamp_opt(cfg.now, 0).unwrap(), time_offset: cfg.offset.clone() }));
+        ev.insert(cfg.rm_tag.clone(), Box::new(MarkerEvaluator { marker_removal_names: cfg.targets.iter().cloned().collect::<HashSet<_>>() }));
+        let strategies: RemoveStrategies = vec![
+            (Box::new(UnwrapBlockMarkerAvailability::new("unwrap-block")), Box::new(UnwrapBlockMarkerBuilder { content: content.clone() })),
+            (Box::new(RangeMarkerAvailability::default()), Box::new(RangeMarkerBuilder::default())),
+        ];
+        let remover = Remover::new(ev, strategies);
+        remover.build_remove_marker(&parsed)
+    })
+}
